@@ -29,7 +29,16 @@ from .core import MachineryError
 # codec names on the TLA+ side are identifier-safe (record fields); PY gives the spelling used in templates / arguments
 PY = {"ascii": "ascii", "utf_8": "utf-8", "latin_1": "latin-1", "cp1251": "cp1251", "cp1252": "cp1252", "koi8_r": "koi8-r",
       "shift_jis": "shift_jis", "euc_jp": "euc-jp", "gb2312": "gb2312", "iso_8859_15": "iso-8859-15", "utf8": "utf8"}
-TRUE_CODECS = [c for c in PY if c != "utf8"]
+_INPUT = list(PY)
+TRUE_CODECS = [c for c in _INPUT if c != "utf8"]      # ASCII-compatible codecs: usable for template input
+# output_encoding is arbitrary: also codecs that emit a BOM and codecs that do not map ASCII to the ASCII bytes
+OUT_EXTRA = {"utf_8_sig": "utf-8-sig", "utf_16": "utf-16", "utf_16_le": "utf-16-le", "utf_16_be": "utf-16-be", "utf_32": "utf-32",
+             "cp037": "cp037", "cp500": "cp500"}
+OUT_CLASS = {"utf_8_sig": "bom", "utf_16": "bom", "utf_32": "bom", "utf_16_le": "not_ascii_compatible", "utf_16_be": "not_ascii_compatible",
+             "cp037": "not_ascii_compatible", "cp500": "not_ascii_compatible"}
+OUT_CODECS = TRUE_CODECS + list(OUT_EXTRA)
+PY.update(OUT_EXTRA)
+SKEL = {"skT": "T:", "skB": " |\n"}          # the ASCII pieces of the rendered output, symbols of the output document
 ALIASES = {"utf8": "utf_8"}                       # an alias spelling usable in a coding comment
 BASE = {"A": "A", "eacute": "é", "euro": "€", "zhe": "Ж", "hira": "あ", "han": "中"}
 ERRS = ["strict", "replace", "ignore", "xmlcharrefreplace", "backslashreplace"]
@@ -75,24 +84,49 @@ def build_tables():
             dec[c][h] = rev[s]
     enc = {}
     ence = {}
+    prefix = {}
     for c in TRUE_CODECS:
         enc[c] = {}
-        ence[c] = {e: {} for e in ERRS}
         for n, s in sym.items():
             try:
                 enc[c][n] = "h" + s.encode(PY[c]).hex()
             except UnicodeEncodeError:
                 enc[c][n] = NONE
+    # output: the whole document is encoded at once; for every codec of the set that is a prefix (the BOM, what the
+    # codec emits for the empty string) followed by the per-symbol encodings -- asserted below against CPython
+    osyms = dict(sym)
+    osyms.update(SKEL)
+    for c in OUT_CODECS:
+        pre = "".encode(PY[c])
+        prefix[c] = "h" + pre.hex()
+        ence[c] = {e: {} for e in ERRS}
+        for n, s in osyms.items():
             for e in ERRS:
                 try:
-                    ence[c][e][n] = "h" + s.encode(PY[c], e).hex()
+                    b = s.encode(PY[c], e)
+                    if not b.startswith(pre):
+                        raise MachineryError("codec %s: no constant prefix" % c)
+                    ence[c][e][n] = "h" + b[len(pre):].hex()
                 except UnicodeEncodeError:
                     ence[c][e][n] = "exc"
+        for e in ERRS:
+            for n1 in BASE:
+                for n2 in list(BASE) + [k for k in sym if k not in BASE][:6]:
+                    doc = ["skT", n1, "skB", n2, "skB", n1, "skB", n2, "skB"]
+                    parts = [ence[c][e][t] for t in doc]
+                    try:
+                        whole = "".join(osyms[t] for t in doc).encode(PY[c], e)
+                    except UnicodeEncodeError:
+                        whole = None
+                    mine = None if "exc" in parts else pre + b"".join(bytes.fromhex(x[1:]) for x in parts)
+                    if whole != mine:
+                        raise MachineryError("encoding with %s/%s is not prefix + per-symbol concatenation" % (c, e))
     # decoding must be defined on every byte string the model can form from a base character
     spell = TRUE_CODECS + sorted(ALIASES)
     canon = {s: ALIASES.get(s, s) for s in spell}
+    canon.update({c: c for c in OUT_EXTRA})
     canon[NONE] = NONE
-    return {"spell": spell, "canon": canon, "rep": rep, "enc": enc, "dec": dec, "ence": ence,
+    return {"spell": spell, "canon": canon, "rep": rep, "enc": enc, "dec": dec, "ence": ence, "prefix": prefix,
             "syms": sorted(sym), "hexes": hexes}, sym
 
 
@@ -111,6 +145,9 @@ def tables_module(tb, cells):
          "EXTENDS TLC, Sequences",
          "T_True == " + core.tla_set([s(c) for c in TRUE_CODECS]),
          "T_Spellings == " + core.tla_set([s(c) for c in tb["spell"]]),
+         "T_Out == " + core.tla_set([s(c) for c in OUT_CODECS]),
+         "T_OutClass == " + _fn({c: OUT_CLASS.get(c, "ascii_compatible") for c in OUT_CODECS}, s),
+         "T_Prefix == " + _fn(tb["prefix"], s),
          "T_Canon == " + _fn(tb["canon"], s),
          "T_Base == " + core.tla_set([s(c) for c in BASE]),
          "T_Syms == " + core.tla_set([s(c) for c in tb["syms"]]),
@@ -132,7 +169,7 @@ def cell_tla(c):
                c["path"], c["oe"], c["errs"]))
 
 
-CFG = """CONSTANTS Codecs <- T_Spellings  Canon <- T_Canon  EncT <- T_EncT  DecT <- T_DecT  EncE <- T_EncE
+CFG = """CONSTANTS Codecs <- T_Spellings  Canon <- T_Canon  EncT <- T_EncT  DecT <- T_DecT  EncE <- T_EncE  Prefix <- T_Prefix
 CONSTANTS Cells <- NoCells  Emit = %s
 SPECIFICATION %s
 INVARIANT Precedence
@@ -186,18 +223,22 @@ def make_cells(run, tb):
                             if run.thorough:
                                 pairs.append((rng.choice(rep), rng.choice(na)))
                         for pr in pairs:
-                            oe = rng.choice([NONE, NONE] + TRUE_CODECS)
+                            oe = rng.choice([NONE, NONE] + OUT_CODECS)
                             add(form="bytes", x=x, bom=bom, cm=cm, ie=ie, c=list(pr), path=path, oe=oe,
                                 errs=rng.choice(ERRS))
     # a str given directly: never decoded, the comment still is not content
     for cm in [NONE] + spell:
         for ie in (NONE, "latin_1", "shift_jis"):
             add(form="str", x="utf_8", bom=False, cm=cm, ie=ie, c=[rng.choice(list(BASE)), rng.choice(list(BASE))],
-                path="bytes", oe=rng.choice([NONE] + TRUE_CODECS), errs=rng.choice(ERRS))
+                path="bytes", oe=rng.choice([NONE] + OUT_CODECS), errs=rng.choice(ERRS))
     # output grid: every base character x output codec x error mode (content from a utf-8 file / str)
     syms = tb["syms"]
-    for oe in [NONE] + TRUE_CODECS:
+    for oe in [NONE] + OUT_CODECS:
         for e in ERRS:
+            # content class "pure ASCII" (the other classes -- encodable / not encodable non-ASCII -- come from the characters)
+            form = rng.choice(["str", "bytes"])
+            add(form=form, x="utf_8", bom=False, cm=NONE, ie=NONE, c=["A", "A"],
+                path=rng.choice(["bytes", "file", "moddir", "reload"]) if form == "bytes" else "bytes", oe=oe, errs=e)
             for c1 in BASE:
                 n = 1 if not run.thorough else 4
                 for _ in range(n):
@@ -262,12 +303,10 @@ def expected_concrete(cell, exp, SYM, tb):
         a, b = pair([SYM[s] for s in o["v"]])
         e["out"] = ["str", _subst(OUT, a, b)]
     elif o["ty"] == "bytes":
-        a, b = pair(o["v"])
-        parts = []
-        for p in OUT:
-            for tok in re.split(r"(\{1\}|\{2\})", p):
-                parts.append(a[1:] if tok == "{1}" else b[1:] if tok == "{2}" else tok.encode("ascii").hex())
-        e["out"] = ["bytes", "".join(parts)]
+        v = list(o["v"])          # the whole document: skT c1 skB c2 skB c1 skB c2 skB, after the prefix
+        if swap:
+            v[1], v[3], v[5], v[7] = v[3], v[1], v[7], v[5]
+        e["out"] = ["bytes", o["pre"][1:] + "".join(x[1:] for x in v)]
     else:
         e["out"] = ["exc", o["v"][0]]
     e["enc"] = exp["enc"]
@@ -553,7 +592,7 @@ def check(run):
             run.negative_control(compare(c, expected_concrete(c, bad, SYM, tb), obs) == "out", "comparer accepted wrong render() bytes")
             done.add("out")
         if e0["res"] == "CompileException" and "res" not in done:
-            bad = dict(e0, res="ok", uni=["A", "A"], src=["A", "A"], out={"ty": "str", "v": ["A", "A"]})
+            bad = dict(e0, res="ok", uni=["A", "A"], src=["A", "A"], out={"ty": "str", "pre": "h", "v": ["A", "A"]})
             run.negative_control(compare(c, expected_concrete(c, bad, SYM, tb), obs) == "res", "comparer accepted ok for a CompileException")
             done.add("res")
         if e0["res"] == "ok" and "coding" not in done and c["path"] == "moddir" and _norm(e0["coding"]) != _norm("koi8_r"):
